@@ -23,7 +23,7 @@ ASSUME = ['ThreadSanitizer sees all accesses of the library and harness (both co
 
 
 def fonts_for(tier):
-    names = ['Padauk.ttf', 'Scheherazadegr.ttf', 'Awami_test.ttf', 'general.ttf', 'PigLatinBenchmark_v3.ttf'] + (['charis_r_gr.ttf', 'Annapurnarc2.ttf', 'AwamiNastaliq-Regular.ttf'] if tier != 'quick' else [])
+    names = ['Padauk.ttf', 'Scheherazadegr.ttf', 'Awami_test.ttf', 'general.ttf', 'PigLatinBenchmark_v3.ttf', 'charis_r_gr.ttf'] + (['Annapurnarc2.ttf', 'AwamiNastaliq-Regular.ttf', 'charis_fast.ttf'] if tier != 'quick' else [])
     out = [fonts.path(n) for n in names]
     out += sorted(glob.glob(os.path.join(CORPUS, 'synth', '*.ttf')))[:12 if tier == 'quick' else 60]
     return out
